@@ -1,15 +1,16 @@
-\* alignment automaton, repaired design: every image with <= 3 layers, every placement of <= 2 empty
-\* history entries, every program of length <= 3 over the layer-moving options, one action per loop iteration
+\* repaired design, alignment universe (<= 3 layers, every placement of <= 2 empty history entries), every program of length <= 2 over the layer moving options, one action per iteration of dagPut's loops
 CONSTANTS
  Images <- ImagesAlign
  Options <- OptsAlign
- MaxProg = 3
+ MaxProg = 2
  Places = {"same-tag"}
+ SrcKinds = {"reg"}
  FixData = TRUE
  FixWriter = TRUE
  FixAdded = TRUE
  FixTag = TRUE
- Fine = FALSE
+ FixClose = TRUE
+ Fine = TRUE
 SPECIFICATION Spec
 INVARIANTS TypeOK PostAligned PostTruthful PostResolves PostNoop PostNoopIff
 CHECK_DEADLOCK FALSE
